@@ -463,6 +463,8 @@ def _loop_membership(chk, ctx, disc) -> None:
     n = 0
     for op, (v, q) in disc.items():
         of = ms[op]
+        from ..effects import local_aliases
+        aliases = local_aliases(of.node)
         for loop in [x for x in walk_no_nested(of.node) if isinstance(x, ast.For)]:
             lookups = []
             removes = False
@@ -472,8 +474,11 @@ def _loop_membership(chk, ctx, disc) -> None:
                     root = recv
                     while isinstance(root, (ast.Subscript, ast.Attribute)) and self_attr(root) is None:
                         root = root.value
-                    if self_attr(root) is not None:
-                        lookups.append((c, self_attr(root)))
+                    sa = self_attr(root)
+                    if sa is None and isinstance(root, ast.Name) and aliases.get(root.id):
+                        sa = sorted(aliases[root.id])[0]        # a local bound to storage (x = self.A[i])
+                    if sa is not None:
+                        lookups.append((c, sa))
                         removes |= c.func.attr in ('remove', 'pop', 'popleft')
             if not lookups or not removes:
                 continue
